@@ -12,3 +12,4 @@ import TinsModel.Props.C11
 #print axioms Tins.Props.C11.trailer_size_spec
 #print axioms Tins.Props.C11.history_observations
 #print axioms Tins.Props.C11.serialize_reparse
+#print axioms Tins.Props.C11.setters_any_order_parsed
